@@ -78,6 +78,27 @@ def run(ck):
         overwrites = 0
         hist = []
         for i in range(rng.randint(1, 30)):
+            if h % 4 == 2 and i in (2, 7):
+                # the matrix handed over anew between assignments (set_data / attribute / hand edit that keeps the column sums):
+                # later assignments work on the matrix as it is now
+                how = (h // 4 + i) % 3
+                K1 = numpy.zeros((N, N))
+                for jj in range(N):
+                    for ii in range(N):
+                        if ii != jj:
+                            K1[ii, jj] = rng.randint(0, 9)
+                    K1[jj, jj] = -K1[:, jj].sum()
+                if how == 0:
+                    rm.set_data(K1.copy())
+                elif how == 1:
+                    rm.data = K1.copy()
+                else:
+                    for jj in range(N):
+                        for ii in range(N):
+                            rm.data[ii, jj] = K1[ii, jj]
+                emit("new %d %s" % (N, " ".join(frac(x) for x in K1.flatten())), "ok")
+                hist.append(("data replaced", ("set_data", "data =", "data[i,j] =")[how], K1.tolist()))
+                last = {}
             a, b = rng.randrange(N), rng.randrange(N)
             if rng.random() < 0.4 and last:
                 a, b = rng.choice(list(last))
@@ -105,7 +126,7 @@ def run(ck):
             if bad:
                 ck.fail("set_rate:value", "assigned off-diagonal value not kept", {"N": N, "history": hist}, bad)
                 break
-        ck.case(("sr", N, tuple(hist)), nontrivial=overwrites > 0, kind="set_rate", size=N,
+        ck.case(("sr", N, repr(hist)), nontrivial=overwrites > 0, kind="set_rate", size=N,
                 sample={"set_rate_history": hist[:8], "N": N} if h < 2 else None)
     # ---- (b) propagation -------------------------------------------------------------------
     for h in range(ck.n(25, 400)):
@@ -150,6 +171,16 @@ def run(ck):
             p0 = p0 * pscale
             arg = p0.copy() if isinstance(arg, numpy.ndarray) else list(p0)
         pops = numpy.asarray(prop.propagate(arg), dtype=float)
+        if isinstance(arg, numpy.ndarray) and arg.dtype == numpy.float64:
+            # the caller's array is an input: it is still the initial condition afterwards and can be used again
+            if not numpy.array_equal(arg, p0):
+                ck.fail("propagate:caller-array", "propagate() changed the array of initial populations it was given",
+                        {"K": K.tolist(), "p0": p0.tolist(), "dt": dt, "nt": nt}, arg.tolist(), p0.tolist())
+            else:
+                again = numpy.asarray(prop.propagate(arg), dtype=float)
+                if not numpy.array_equal(again, pops):
+                    ck.fail("propagate:caller-array", "a second propagate() with the same array gives other populations",
+                            {"K": K.tolist(), "p0": p0.tolist(), "dt": dt, "nt": nt}, float(numpy.abs(again - pops).max()), 0)
         emit("new %d %s" % (N, " ".join(frac(x) for x in K.flatten())), "ok")
         emit("prop %s 4 1 %d %s" % (frac(dt), nt, " ".join(frac(x) for x in p0)),
              " | ".join(" ".join(frac(x) for x in row) for row in pops), 1e-9 * float(numpy.abs(p0).sum()))
@@ -241,6 +272,25 @@ def run(ck):
         emit("pm %d %d %d %d %d %s %s" % (N, 1 if start == 0.0 else 0, 1 if ongrid else 0, Ns, ln,
                                            " ".join(frac(x) for x in E.flatten()), " ".join(frac(x) for x in Edt.flatten())),
              " | ".join(" ".join(frac(x) for x in U[:, :, i].flatten()) for i in range(ln)), 1e-9)
+    # ---- (c') relaxation ladders with nearly equal rates: the eigenvectors of the rate matrix are nearly parallel ------------------
+    for (N, tau, spc) in ((4, 50.0, 1e-5), (5, 80.0, 1e-3), (7, 40.0, 1e-2), (3, 25.0, 1e-7), (6, 60.0, 1e-4))[:ck.n(5, 5)]:
+        K = numpy.zeros((N, N))
+        for j in range(N - 1):
+            K[j + 1, j] = 1.0 / (tau * (1.0 + j * spc))
+            K[j, j] = -K[j + 1, j]
+        ta = TimeAxis(0.0, 400, 1.0)
+        ts = TimeAxis(0.0, 8, 25.0)
+        inp = {"K": K.tolist(), "axis": [0.0, 400, 1.0], "sub": [0.0, 8, 25.0], "kind": "ladder with nearly equal rates"}
+        ck.case(("ladder", N, tau, spc), nontrivial=True, kind="propmatrix:nearly-defective-ladder")
+        try:
+            U = PopulationPropagator(ta, K.copy()).get_PropagationMatrix(ts)
+        except Exception as e:
+            ck.fail("propmatrix:raises", "get_PropagationMatrix raised %r" % (e,), inp)
+            continue
+        worst = max(float(numpy.abs(U[:, :, i] - scipy.linalg.expm(K * (25.0 * i))).max()) for i in range(8))
+        ck.resid("nearly defective ladder: propagation matrix vs expm", worst)
+        if not worst <= 1e-9:
+            ck.fail("propmatrix:exp", "propagation matrix on the sub-axis differs from exp(K t) (ladder with nearly equal rates)", inp, worst, "<=1e-9")
     # ---- (d) one propagator, rates edited between calls: both methods must follow the rate matrix as it is now ------------------
     for h in range(ck.n(6, 60)):
         N = rng.randint(2, 4)
